@@ -205,6 +205,25 @@ CHECKS["C10"] = dict(
          "In-memory state after a refused write is not compared (documented observation).",
 )
 
+CHECKS["C04"] = dict(
+    engine="spec/concat", category="model_checking",
+    technique="TLA+ state machine DrillholeConcat.tla of the Concatenator (live python objects + attribute records + per-label "
+              "concatenated array and index table, written line by line after delete_index_data / fetch_start_index / "
+              "update_array_attribute / remove_entity), checked by TLC for tiling, ownership, one record per entity, Property-key "
+              "consistency, read-back, table view and the action property Isolation; the state graph for the deviations the "
+              "implementation still shows (learned by a probe) is exported and a path cover is replayed on a real DrillholeGroup in a "
+              "real geoh5 file, comparing after every action the API reads, the raw Concatenated Data datasets (h5py), depth_table "
+              "and, after re-open, the attribute records",
+    text="All behaviours of the specification within the bounds (2-3 holes, 2 shared names, depth and interval tables, lengths 0-3, "
+         "4-5 actions or a populated 3-hole scene + 3-4 actions, attribute encodings 2.0 and 2.1); implementation bound to it by "
+         "replaying a transition cover (quick: seeded sample of the cover of the larger graphs). Row order and slice position are not "
+         "compared; tiling and per-owner content are.",
+    design_ref="DESIGN.md section 3; notes/C04.md",
+    note="One depth table and one interval table per hole with the default names; DEPTH/FROM/TO never rewritten; a hole slot is used "
+         "once; hole order in depth_table compared as a set of per-hole blocks. Two open findings (rename keeps the old label; "
+         "table columns looked up by label) are re-observed with their own signatures; five were fixed in /repo.",
+)
+
 NOT_YET = "check not built yet in this round (planned: see DESIGN.md section 7)"
 
 
